@@ -8,6 +8,7 @@ VARIANTS = ['1', '2', '3', '4', '5', '6.0', '6.1', '6.2', '6.3', '7.0', '7.1', '
 PIPELINED = VARIANTS[3:]
 MULTI = VARIANTS[5:]
 FUEL = 200000
+FEATURES = ['cold-store-then-load', 'store-then-load', 'store-store-line', 'load-then-store', 'stores', 'loads', 'gt16-lines']
 PROFILES = ['alu', 'ssa', 'hazard', 'branch', 'loops', 'shadow', 'ldslow', 'ldonly', 'disj', 'touched', 'mem', 'stld', 'tail', 'mixed', 'err']
 
 
@@ -22,7 +23,7 @@ def parse_spec(line):
     t = line.split(' ')
     if t[0] == 'ok':
         d = dict(x.split('=', 1) for x in t[1:])
-        return ('ok', int(d['steps']), d.get('r', ''), d.get('m', ''))
+        return ('ok', int(d['steps']), d.get('r', ''), d.get('m', ''), d.get('acc', ''))
     if t[0] == 'err':
         return ('err:' + t[1], int(t[2].split('=')[1]), '', '')
     return (t[0], 0, '', '')
@@ -151,3 +152,42 @@ def shrink(ctx, p, variant, par, want=None, max_evals=400):
                 cur = trial
                 setattr(q, d, dict(cur))
     return q
+
+
+def accesses(spec):
+    """[(kind, addr, size)] of a parsed spec result"""
+    if len(spec) < 5 or not spec[4]:
+        return []
+    out = []
+    for t in spec[4].split(','):
+        if t:
+            k, a, n = t.split(':')
+            out.append((k, int(a), int(n)))
+    return out
+
+
+def features(prog, spec):
+    """Dynamic features of a run used by the per-variant domains (DESIGN.md section 6)."""
+    f = set()
+    acc = accesses(spec)
+    seen = {}
+    for k, a, n in acc:
+        for line in {a // 64, (a + n - 1) // 64}:
+            h = seen.setdefault(line, '')
+            if k == 'l' and 's' in h and not h.startswith('l'):
+                f.add('cold-store-then-load')       # load of a line first touched by a store
+            if k == 'l' and 's' in h:
+                f.add('store-then-load')
+            if k == 's' and 's' in h:
+                f.add('store-store-line')
+            if k == 's' and 'l' in h:
+                f.add('load-then-store')
+            seen[line] = h + k
+    if any(k == 's' for k, _, _ in acc):
+        f.add('stores')
+    if any(k == 'l' for k, _, _ in acc):
+        f.add('loads')
+    lines = {a // 64 for _, a, _ in acc}
+    if len(lines) > 16:
+        f.add('gt16-lines')
+    return f
